@@ -34,9 +34,14 @@ warnings.filterwarnings("ignore")
 TAGSFX = os.environ.get("VERIF_TAG", "")
 ONLY = [f for f in os.environ.get("VERIF_C03_FAMILIES", "").split(",") if f]
 
-OPS = ["Train", "Eval", "Step", "SetData", "Load", "Fantasy", "Prior", "Backward", "Predict0", "Predict1", "Predict2",
-       "Predict3"]
+# a prediction op is O_PRED + c with c = settings index (0..3, family specific) + 4 * input-batch-shape index
+# (Models/C03_cache.v: cfg_of / shape_of); "Predict1@b(3,)" = settings 1 on test inputs of shape 3 x n x d
+SHAPES = [(), (2,), (3,)]
+NCFG = 4
+OPS = ["Train", "Eval", "Step", "SetData", "Load", "Fantasy", "Prior", "Backward"] + [
+    "Predict%d%s" % (c, "" if not sh else "@b%s" % (sh,)) for sh in SHAPES for c in range(NCFG)]
 O_TRAIN, O_EVAL, O_STEP, O_SETDATA, O_LOAD, O_FANT, O_PRIOR, O_BWD, O_PRED = range(9)
+NOPS = O_PRED + NCFG * len(SHAPES)
 VARIANTS = {1: "Module.train(True) does not clear caches", 2: "Module.train(False) from training does not clear caches",
             3: "_load_from_state_dict does not clear caches", 4: "set_train_data keeps the prediction strategy",
             5: "clear_cache_hook on backward missing", 6: "_VariationalStrategy.__call__ does not clear in training mode",
@@ -45,7 +50,8 @@ VARIANTS = {1: "Module.train(True) does not clear caches", 2: "Module.train(Fals
             11: "Module.train override missing (no clearing on any mode change)",
             12: "staleness guard missing (SGPR strategy not rebuilt when sgpr_diagonal_correction changes / "
                 "variational memo not cleared when variational_cholesky_jitter changes)",
-            13: "get_fantasy_model does not restore the source model when the copy raises"}
+            13: "get_fantasy_model does not restore the source model when the copy raises",
+            14: "VariationalStrategy.forward keeps a memoised Cholesky factor of another batch shape"}
 ATOL = 1e-8
 
 
@@ -109,6 +115,7 @@ class Family:
     has_data = True
     cmp_backward_status = False
     cfg_names = ["default", "c1", "c2", "c3"]
+    batch_cfg = 0       # the setting under which the exhaustive short histories predict on batched test inputs
 
     def __init__(self, seed):
         self.rng = random.Random(seed * 104729 + 17)
@@ -158,6 +165,17 @@ class Family:
 
     def fantasy(self, model):
         return model.get_fantasy_model(self.Xf, self.yf)
+
+    def xs(self, shape_index):
+        """test inputs of batch shape SHAPES[shape_index]: element i is the family's test set moved by i/16"""
+        shape = SHAPES[shape_index]
+        if not shape:
+            return self.Xs
+        n = torch.Size(shape).numel()
+        return torch.stack([self.Xs + 0.0625 * i for i in range(n)]).reshape(*shape, *self.Xs.shape)
+
+    def cfg_label(self, c):
+        return self.cfg_names[c % NCFG] + ("" if c < NCFG else "@b%s" % (SHAPES[c // NCFG],))
 
 
 def _rbf_exact(rng):
@@ -235,6 +253,7 @@ class Kiss(ExactA):
     """KISS-GP: GridInterpolationKernel, InterpolatedPredictionStrategy (WISKI fantasies)"""
     name, coq, cmp_backward_status = "kiss", 1, False
     cfg_names = ["default", "fast_pred_var", "fast_pred_var+fast_pred_samples", "skip_posterior_variances"]
+    batch_cfg = 1
 
     def setup(self):
         super().setup()
@@ -383,8 +402,9 @@ def dist_out(p):
 
 
 def do_predict(fam, model, c, kind="post"):
-    """the public call under configuration c; kind: post / prior"""
-    with torch.no_grad(), fam.cfg(c):
+    """the public call under configuration c (settings c % 4 on test inputs of batch shape SHAPES[c // 4]);
+    kind: post / prior"""
+    with torch.no_grad(), fam.cfg(c % NCFG):
         if model.training and fam.has_data:
             return dist_out(fam.train_output(model))
         if kind == "prior":
@@ -392,7 +412,7 @@ def do_predict(fam, model, c, kind="post"):
                 return dist_out(fam.prior_call(model))
             with gs.prior_mode(True):
                 return dist_out(model(fam.Xs))
-        return dist_out(model(fam.Xs))
+        return dist_out(model(fam.xs(c // NCFG)))
 
 
 def do_backward(fam, model):
@@ -572,8 +592,14 @@ def run_history(fam, oracle, hist, trace, keep=False):
             if not tr["indep"]:
                 problems.append(dict(kind="model-pessimistic", pos=pos, cfg=c, opkind=kind))
             continue
-        problems.append(dict(kind="stale" if tr["indep"] else "unkeyed", pos=pos, cfg=c, opkind=kind,
-                             diff=maxdiff(res, fres), fresh=fst, tags=tr["tags"], training=training))
+        pk = "stale" if tr["indep"] else "unkeyed"
+        extra = {}
+        if fst == "ok" and fres is not None and res["mean"].shape != fres["mean"].shape:
+            # the symptom of a cache that carries the batch shape of an EARLIER call
+            pk = "batch-shape"
+            extra = dict(impl_shape=list(res["mean"].shape), fresh_shape=list(fres["mean"].shape))
+        problems.append(dict(kind=pk, pos=pos, cfg=c, opkind=kind, diff=maxdiff(res, fres), fresh=fst, tags=tr["tags"],
+                             training=training, **extra))
     return problems, statuses, values
 
 
@@ -636,34 +662,51 @@ def random_history(rng, alphabet, n, training0=False):
 
 
 def is_nontrivial(hist):
-    """a cache-populating op, later a mutating op, later a prediction"""
+    """a cache-populating op, later a mutating op, later a prediction; or two posterior calls on test inputs of
+    different batch shapes"""
     st = 0
+    shapes = set()
     for o in hist:
+        if o >= O_PRED or o == O_BWD:
+            shapes.add((o - O_PRED) // NCFG if o >= O_PRED else 0)
         if st == 0 and (o >= O_PRED or o in (O_BWD, O_FANT, O_PRIOR)):
             st = 1
         elif st == 1 and o in (O_STEP, O_SETDATA, O_LOAD):
             st = 2
         elif st == 2 and o >= O_PRED:
             return True
-    return False
+    return len(shapes) > 1
+
+
+def pred(c, shape=0):
+    return O_PRED + c + NCFG * shape
 
 
 def plan(tier, seed):
-    """(family name, list of histories, exhaustive bound or None)"""
+    """(family name, list of histories, exhaustive bound or None).
+    base = the 8 non-prediction ops + the 4 settings on un-batched test inputs; ext = base + predictions on batched
+    test inputs (3 x n x d and 2 x n x d) under one family-specific setting (the one whose caches are richest);
+    full = all 20 ops (random histories)."""
     rng = random.Random(seed * 31337 + 5)
-    full = list(range(12))
+    full = list(range(NOPS))
+    base = list(range(O_PRED + NCFG))
     P = []
     kA, kB = (3, 2) if tier == "quick" else (4, 3)
-    P.append(("exactA", exhaustive(full, kA), kA))
-    P.append(("exactB", exhaustive(full, kB), kB))
+
+    def ext(f):
+        return base + [pred(FAMILIES[f].batch_cfg, sh) for sh in (2, 1)]
+    P.append(("exactA", exhaustive(base, kA), (kA, len(base))))
+    P.append(("exactA", exhaustive(ext("exactA"), kA - 1), (kA - 1, len(base) + 2)))
+    P.append(("exactB", exhaustive(ext("exactB"), kB), (kB, len(base) + 2)))
     nrand = 40 if tier == "quick" else 300
     for f in ("exactA", "exactB"):
         P.append((f, [random_history(rng, full, rng.randint(5, 25)) for _ in range(nrand)], None))
     k2 = 2 if tier == "quick" else 3
     for f in ("kiss", "sgpr", "varWC", "varUC", "varWN", "varWM"):
-        alphabet = full if FAMILIES[f].has_data else [o for o in full if o != O_SETDATA]
-        P.append((f, exhaustive(alphabet, k2), k2))
-        P.append((f, [random_history(rng, alphabet, rng.randint(5, 25)) for _ in range(nrand)], None))
+        keep = (lambda o: True) if FAMILIES[f].has_data else (lambda o: o != O_SETDATA)
+        alphabet = [o for o in ext(f) if keep(o)]
+        P.append((f, exhaustive(alphabet, k2), (k2, len(alphabet))))
+        P.append((f, [random_history(rng, [o for o in full if keep(o)], rng.randint(5, 25)) for _ in range(nrand)], None))
     return P
 
 
@@ -730,15 +773,18 @@ def run(out, ctx):
         items = list(zip(hists, traces))
         total += len(items)
         if bound is not None:
-            exh[famname] = "all sequences of %d ops over the %d op kinds + final prediction (%d histories)" % (
-                bound, 12, len(hists))
+            exh.setdefault(famname, []).append(
+                "all sequences of %d ops over %d op kinds + final prediction (%d histories)" % (bound[0], bound[1], len(hists)))
         chunk = max(20, (len(items) + nw * 4 - 1) // (nw * 4))
         for i in range(0, len(items), chunk):
             jobs.append((famname, seed, items[i:i + chunk]))
     out.rule = ("operation histories over {Train, Eval, Step (training mode only), SetTrainData, LoadStateDict, Fantasy, "
-                "PriorCall, Backward(non-detached), Predict x 4 configurations}; every prediction of every history is "
-                "compared with a freshly constructed model holding the current snapshot; non-trivial = a "
-                "cache-populating op, later a mutating op (Step/SetTrainData/LoadStateDict), later a prediction")
+                "PriorCall, Backward(non-detached), Predict x 4 settings x 3 batch shapes of the test inputs (n x d, "
+                "2 x n x d, 3 x n x d)}; every prediction of every history is compared IN SHAPE AND VALUE with a freshly "
+                "constructed model holding the current snapshot; exhaustive short histories use the 4 settings on un-batched "
+                "inputs plus both batched shapes under one setting per family, random histories all 20 ops; non-trivial = a "
+                "cache-populating op, later a mutating op (Step/SetTrainData/LoadStateDict), later a prediction, or two "
+                "posterior calls on inputs of different batch shapes")
     out.extra["tolerances"] = {"prediction vs fresh model": ATOL}
     out.extra["exhaustive_bounds"] = exh
     out.exhaustive = True
@@ -768,13 +814,15 @@ def failure_key(famname, p, fam):
     if p["kind"] == "unkeyed":      # cannot occur while the model's history-independence theorem holds
         return "unkeyed-setting:%s:%s" % (famname, fam.cfg_names[3])
     if p["kind"] == "stale":
-        return "stale:%s:%s:%s" % (famname, p["opkind"], fam.cfg_names[p["cfg"]])
+        return "stale:%s:%s:%s" % (famname, p["opkind"], fam.cfg_label(p["cfg"]))
+    if p["kind"] == "batch-shape":
+        return "batch-shape:%s:%s:%s" % (famname, p["opkind"], fam.cfg_label(p["cfg"]))
     if p["kind"] == "status":
         return "status:%s:impl=%s:model=%s" % (famname, p["impl"], p["model"])
     if p["kind"] == "fantasy-corrupts":
         return "fantasy-exception-corrupts-source:%s" % famname
     if p["kind"] == "exception":
-        return "exception:%s:%s:%s" % (famname, fam.cfg_names[p["cfg"]], p["err"])
+        return "exception:%s:%s:%s" % (famname, fam.cfg_label(p["cfg"]), p["err"])
     return "harness:%s:%s" % (p["kind"], famname)
 
 
@@ -792,16 +840,19 @@ def report_failures(out, failures, seed):
         h = hist[:p["pos"] + 1] if p["pos"] >= 0 else hist
         small, why = h, []
         nshrunk = getattr(report_failures, "n", 0)
-        if p["kind"] in ("stale", "unkeyed", "status", "exception", "fantasy-corrupts") and nshrunk < 6:
+        if p["kind"] in ("stale", "batch-shape", "unkeyed", "status", "exception", "fantasy-corrupts") and nshrunk < 6:
             report_failures.n = nshrunk + 1
             try:
                 small = shrink(fam, oracle, h, fam.coq, p["kind"])
-                if p["kind"] == "stale":
+                if p["kind"] in ("stale", "batch-shape", "exception"):
                     why = explain(fam, oracle, small, fam.coq)
             except Exception as e:
                 why = ["shrinking failed: %r" % e]
         what = {"stale": "prediction after the history differs from a freshly constructed model with the same "
                          "parameters/data/settings (max abs diff %s)" % p.get("diff"),
+                "batch-shape": "prediction after the history has batch shape %s, a freshly constructed model with the same "
+                               "parameters/data/settings returns %s (a cache carries the batch shape of an earlier call)" % (
+                                   p.get("impl_shape"), p.get("fresh_shape")),
                 "unkeyed": "prediction depends on the settings of an EARLIER call (cache not keyed by the setting); "
                            "differs from a fresh model by %s" % p.get("diff"),
                 "status": "operation status differs from the model (impl %s, model %s)" % (p.get("impl"), p.get("model")),
